@@ -688,7 +688,7 @@ def _model_names(cfg, cohort_case):
 def model_case(draw, kinds):
     cfg = draw(gen.model_cfg(kinds=kinds, dim=(1, 3)))
     feats = [f"f{j}" for j in range(cfg["kwargs"]["dimension"])]
-    cohort = draw(gen.cohort(kind=gen.data_kind_for(cfg), n_ind=(5, 5) if cfg["kwargs"]["dimension"] != 5 else (7, 7),
+    cohort = draw(gen.cohort(kind=gen.data_kind_for(cfg), n_ind=(5, 5) if cfg["kind"] != "mixture_logistic" else (7, 7),
                              n_visits=(1, 4), features=feats, event=cfg["kind"] == "joint", id_kinds=("s",), shuffle=False))
     ctx = _model_names(cfg, cohort)
     if isinstance(ctx, str):
